@@ -44,7 +44,7 @@ fn main() {
     let max: usize = args[2].parse().unwrap();
     let nargs: usize = args[3].parse().unwrap();
     let lines: Vec<serde_json::Value> = std::io::BufReader::new(f).lines().map(|l| serde_json::from_str(&l.unwrap()).unwrap()).collect();
-    for (oi, o) in origins_from_lines(&lines, max).iter().enumerate() {
+    for (oi, o) in origins_with_twins(&lines, max).iter().enumerate() {
         match o.d { 1 => run::<1>(o, oi, nargs), 2 => run::<2>(o, oi, nargs), 3 => run::<3>(o, oi, nargs), 4 => run::<4>(o, oi, nargs),
                     5 => run::<5>(o, oi, nargs), 6 => run::<6>(o, oi, nargs), _ => {} }
     }
